@@ -309,6 +309,7 @@ Record C13_case := mkCase {
   c_thr : Z;                       (* args.rare_value_count_upper_bound *)
   c_bound : Z;                     (* args.max_unique_hist_constraint *)
   c_cap : Z;                       (* warmup_size of the sketches *)
+  c_capn : nat;                    (*   the same as a nat (Z.to_nat c_cap, computed once per case) *)
   c_syms : str;                    (* args.missing_value_symbols *)
   c_edges : list Z;                (* bucket edges of value_repetitions.json *)
   c_hash : list (str * N);         (* internal_hash tabulated on the strings of the table (and 'nan') *)
@@ -326,9 +327,9 @@ Fixpoint lookup_N (tab : list (N * N)) (x : N) : N :=
 Definition enc_lent (x : HLL.lent) : Z * Z :=
   match x with HLL.Exact n => (0, Z.of_nat n) | HLL.Est z => (1, Z.of_N z) end.
 Definition case_card (c : C13_case) (j : nat) (bs : list batch) : HLL.lent :=
-  card_hll (c_p c) (Z.to_nat (c_cap c)) (c_width c) (lookup_N (c_h2 c)) (hash_val (c_hash c)) j bs.
+  card_hll (c_p c) (c_capn c) (c_width c) (lookup_N (c_h2 c)) (hash_val (c_hash c)) j bs.
 Definition case_card_spec (c : C13_case) (col : list val) : HLL.lent :=
-  card_hll_spec (c_p c) (Z.to_nat (c_cap c)) (c_width c) (lookup_N (c_h2 c)) (hash_val (c_hash c)) col.
+  card_hll_spec (c_p c) (c_capn c) (c_width c) (lookup_N (c_h2 c)) (hash_val (c_hash c)) col.
 
 (* per column: cardinality, histogram, per-batch coverages, mean, annotation;  and the rare table *)
 (* rationals are printed as (numerator, denominator) *)
